@@ -24,6 +24,8 @@ CLAIMED = {
          "Lean proof of the nonce-cache invariant + sequence correspondence"),
  "C17": ("proof", "Lean: selected version is valid at signing time and extremal under newest/oldest (ties by id), selection independent of list order, window boundaries, nothing sent when no version is valid or the secret is unloadable, headers = unix seconds + hex mac over the canonical string of the body handed over; inbound accepts exactly the versions valid at the signed timestamp; tie: real HTTPDeliverer.Deliver on every boundary instant, Lean HMAC as oracle", "§7 C17",
          "Lean proof of selection/signing model + differential correspondence with independent HMAC"),
+ "C11": ("proof", "Lean: authorized => exact allowed token after `Bearer ` (HTTP case-sensitive scheme, gRPC any metadata value); route override replaces the global list; a compile-accepted configuration leaves no pull route with an empty allowlist; tie: generated token configurations x endpoints (incl. non-canonical paths) x Authorization variants through the real Pull HTTP handler, Worker gRPC handlers and Admin handler, with store snapshots before/after", "§7 C11",
+         "Lean proof of the authorizer model + differential correspondence"),
  "C10": ("proof", "Lean: resolve = first inbound route whose criteria all hold (resolve_first_match), non-inbound routes unreachable for every request and configuration, 404/405 exactly when nothing matches, path/host-wildcard/method criteria characterised; pinned-tree witnesses kept; tie: generated config texts through real parser+compiler+runtime state, generated requests through real resolveIngress and the real ingress handler", "§7 C10",
          "Lean proof of the resolver model + differential correspondence"),
  "C12": ("proof", "Lean: every enqueue record of every model run satisfies C12.stepOK (admission iff below depth, drop_oldest accounting, refusal leaves queue unchanged); tie: admit-profile traces on memory and SQLite", "§7 C12",
